@@ -131,6 +131,11 @@ def gen_case(rng, tier, kind=None):
         if d >= 2 and rng.random() < 0.12:
             case["fchunks"] = random_composition(rng, d, rng.randint(2, d))
         K = rng.randint(1, 8) if not rows_tail else rng.randint(1, 2)
+        if case.get("refit_n"):
+            # dozens of refits stay cheap: few iterations, few blocks
+            K = min(K, 2)
+            if len(case["chunks"]) > 4:
+                case["chunks"] = random_composition(rng, n, rng.randint(1, 4))
         case["K"] = K
         case["thr"] = rng.choice(THRS)
         if kind == "kmeans":
